@@ -304,7 +304,8 @@ pub fn install_panic_hook() {
             .location()
             .map(|l| {
                 let f = l.file();
-                let f = f.strip_prefix("/repo/").unwrap_or(f);
+                let repo = std::env::var("VERIF_REPO").unwrap_or_else(|_| "/repo".to_string());
+                let f = f.strip_prefix(&format!("{repo}/")).or_else(|| f.strip_prefix("/repo/")).unwrap_or(f);
                 format!("{}:{}", f, l.line())
             })
             .unwrap_or_else(|| "?".into());
